@@ -5,7 +5,10 @@ From Coq Require Import ZArith List Bool String.
 From VQ Require Import Model.Inventory Model.Params Proofs.ParamsProofs Glue.InventoryFacts.
 From VQ Require Import Glue.Pin_inv_euclid Glue.Pin_inv_cosine Glue.Pin_inv_vq Glue.Pin_inv_fsq Glue.Pin_inv_lfq Glue.Pin_inv_simvq Glue.Pin_inv_rpq Glue.Pin_inv_rfsq Glue.Pin_inv_lq.
 From VQ Require Import Glue.Pin_npinit_vq Glue.Pin_npinit_fsq Glue.Pin_npinit_lfq Glue.Pin_npinit_rfsq Glue.Pin_npinit_lq.
+From VQ Require Import Glue.Pin_fp_C15.
 Import ListNotations.
+
+(* implicit *)
 
 (* implicit *)
 Theorem C15_roundtrip :
@@ -154,3 +157,8 @@ Theorem C15_inventory_cosine :
   inv_cosine.inv_cosine = pinned_inv_cosine.
 Proof. exact (@pin_inv_cosine). Qed.
 Print Assumptions C15_inventory_cosine.
+
+Theorem C15_tie_source_footprint :
+  fp_C15.fp_C15 = pinned_fp_C15.
+Proof. exact (@Pin_fp_C15.pin_fp_C15). Qed.
+Print Assumptions C15_tie_source_footprint.
